@@ -28,10 +28,12 @@ func GetIndexLetters(document *gedcom.Document, livingVisibility LivingVisibilit
 	letterMap := map[rune]bool{}
 	for _, individual := range document.Individuals() {
 		switch livingVisibility {
-		case LivingVisibilityShow, LivingVisibilityPlaceholder:
+		case LivingVisibilityShow:
 			letterMap[getIndexLetter(individual)] = true
-		case LivingVisibilityHide:
-			// Only the individuals that will be shown need a letter.
+		case LivingVisibilityHide, LivingVisibilityPlaceholder:
+			// Only the individuals that will be listed need a letter. The
+			// letter of a living individual would give away the start of
+			// their surname.
 			if !individual.IsLiving() {
 				letterMap[getIndexLetter(individual)] = true
 			}
